@@ -105,7 +105,7 @@ regenerated from the working tree on every run (`NeoFS.Generated`). A changed co
 theorem model_constants_match_sources :
     NeoFS.Generated.common_mintPrefix = [1] ∧ NeoFS.Generated.common_burnPrefix = [2] ∧
     NeoFS.Generated.common_lockPrefix = [3] ∧ NeoFS.Generated.common_unlockPrefix = [4] ∧
-    NeoFS.Generated.balance_accPrefix = 97 ∧ NeoFS.Generated.balance_circulation = "MainnetGAS" := by decide
+    NeoFS.Generated.balance_accPrefix_bytes = [97] ∧ NeoFS.Generated.balance_circulation = "MainnetGAS" := by decide
 
 -- a lock target that is NOT fresh: a zero-amount transfer left the empty record ⟨0,0,[]⟩ there;
 -- the history is inside the quantifier, the lock overwrites the record, the replay still holds
